@@ -1,6 +1,8 @@
 package main
 
 import (
+	"k8s.io/apimachinery/pkg/runtime/schema"
+	apierrors "k8s.io/apimachinery/pkg/api/errors"
 	"fmt"
 	"time"
 
@@ -26,7 +28,7 @@ type wstep struct {
 
 func (s wstep) String() string {
 	names := []string{"set", "delete", "close", "connerr", "status", "bookmark", "closeafter", "barrier", "sleep", "unknowntype", "errorframe",
-		"drop", "duplicate", "replay", "overflow", "terminating", "nonobject", "expiredstatus"}
+		"drop", "duplicate", "replay", "overflow", "terminating", "nonobject", "expiredstatus", "detailedstatus"}
 	name := fmt.Sprint(s.Kind)
 	if s.Kind >= 0 && s.Kind < len(names) {
 		name = names[s.Kind]
@@ -82,6 +84,15 @@ func applyStep(srv *fakeapi.Server, s wstep, errs *int) {
 		// the status frame of an expired resume version (410 Gone) in the middle
 		// of a healthy stream: like every status frame it is noted and skipped
 		srv.Inject(fakeapi.Frame{Type: watch.Error, Obj: &metav1.Status{Status: "Failure", Code: 410, Reason: metav1.StatusReasonExpired, Message: "too old resource version"}})
+	case 18:
+		// status frames as apimachinery builds them for 504 / 429: Details set
+		// (retryAfterSeconds), no causes
+		st := apierrors.NewServerTimeout(schema.GroupResource{Resource: "pods"}, "watch", 1).Status()
+		srv.Inject(fakeapi.Frame{Type: watch.Error, Obj: &st})
+		st2 := apierrors.NewTooManyRequests("slow down", 1).Status()
+		srv.Inject(fakeapi.Frame{Type: watch.Error, Obj: &st2})
+		st3 := apierrors.NewInternalError(fmt.Errorf("boom")).Status()
+		srv.Inject(fakeapi.Frame{Type: watch.Error, Obj: &st3})
 	case 16:
 		// an ADDED frame whose payload is not an API object at all (an
 		// undecodable body): the session cannot use it; nothing may be lost
@@ -190,6 +201,7 @@ func runC04(c *Ctx) {
 		{{Kind: 9}},
 		{{Kind: 16}},
 		{{Kind: 17}},
+		{{Kind: 18}},
 		{{Kind: 17}, {Kind: 2}},
 		{{Kind: 5}, {Kind: 16}, {Kind: 4}},
 		{{Kind: 6, K: 2}},
@@ -274,6 +286,7 @@ func runC04(c *Ctx) {
 			}
 			steps := append(append(append([]wstep{}, base[:pos]...), fl...), base[pos:]...)
 			r := &watchRun{seed: c.Seed + int64(runs), level: []int{0, 3, 1}[runs%3], filt: filts[runs%2], pre: pre, steps: steps}
+			c.Now(fmt.Sprintf("watch history with fault %d at position %d: %v", fi, pos, steps))
 			runWatch(c, r)
 			what := fmt.Sprintf("fault %d at position %d", fi, pos)
 			eval(r, what)
@@ -307,6 +320,7 @@ func runC04(c *Ctx) {
 			}
 		}
 		r := &watchRun{seed: c.Seed*1000 + int64(i), level: c.Rng.Intn(4), filt: filts[c.Rng.Intn(2)], pre: pre[:c.Rng.Intn(len(pre)+1)], steps: steps}
+		c.Now(fmt.Sprintf("random watch history %d: %v", i, steps))
 		runWatch(c, r)
 		eval(r, fmt.Sprintf("random %d", i))
 	}
